@@ -29,7 +29,10 @@ CHECKS = {
          "(none when anchored), C19_hops_sound (the hop counter and the closed-form next state describe the same failure chain), "
          "C19_result (the counters do not influence the result), C19_overlap_* for the overlapping loop (C19_overlap_call_result: the "
          "per-call counters of the driver are ghost state of try_find_overlapping_fwd; C19_overlap_cost: per call at most "
-         "at' + 1 - at transitions). Tie: cfg-guarded counters in the "
+         "at' + 1 - at transitions; C19_overlap_calls_total: over n calls at most (e-s)+(n-1) transitions, failure hops <= transitions; "
+         "C19_overlap_iter_total). Prefilter work: findScan (PreScan.lean) = haystack extent the prefilter answers of a search account "
+         "for, compared exactly with a third cfg-guarded counter in Prefilter::find_in; C19_builder_prescan_le: at most span length for "
+         "every prefilter the builder can choose. Tie: cfg-guarded counters in the "
          "real search loops and in both NFA next_state loops; per search the two real counters must EQUAL the model's (DFA: 0 fails), and "
          "every call of an overlapping call sequence (anchored or not) likewise; the dump walk records the failure traversals of every (state, byte) next_state call, compared with the model's chain length by "
          "the certificate step (contiguous NFA against noncontiguous, DFA against zero).", "5 C19",
@@ -57,7 +60,11 @@ CHECKS = {
  "C15": ("other",
          "PARTIAL. Proved on the model: every haystack access of the search loops carries its bounds proof (by construction, from "
          "Input.valid), the Teddy window schedule only loads inside the span (C15_teddy_loads, once C06 proofs land), and every "
-         "reported match satisfies start <= end <= haystack length, pid < pattern count, inside the span (C15_*_wf). Observed, not "
+         "reported match satisfies start <= end <= haystack length, pid < pattern count, inside the span (C15_*_wf). The table indexing "
+         "of the three automata never goes out of range on a reachable state, for all pattern lists: L1dIds_inbounds (DFA: sid+class "
+         "< trans.len, (sid>>stride2)-2 < matches.len, set_matches cannot panic), L1eSafe_* (contiguous NFA: bounds-CHECKED "
+         "transcription of next_state / match_len / match_pattern succeeds and agrees with the totalised one), L1cIds_inbounds "
+         "(noncontiguous NFA); these models are certified against every real automaton dump. Observed, not "
          "proved: the loads of the compiled unsafe SIMD / raw-pointer code - every haystack length 0..104 (72 quick) with arbitrary "
          "bytes is searched in a child process flush against PROT_NONE pages on the right and on the left, for every packed variant "
          "the CPU has and for searchers with prefilters; a SIGSEGV, abort or panic is a violation; results are compared with the model.",
@@ -73,7 +80,8 @@ CHECKS = {
          "(all compositions of short streams, random schedules, production 64 KiB boundary). The capacity the real Buffer::new chooses "
          "is OBSERVED through a hook for a sweep of longest-pattern lengths (up to 2^21 / 2^23), hcap is decided for each observation by "
          "the Lean driver, production-capacity requests carry the observed capacity, and stream-vs-in-memory self-comparison of the "
-         "real searcher runs with synthetic 9 KB - 600 KB patterns.", "5 C07",
+         "real searcher runs with synthetic 9 KB - 600 KB patterns. C07_stream_transfer + L1{c,cDense,d,dIds,e}_stream: the same "
+         "statement for the transcribed noncontiguous NFA, DFA (abstract and id-level) and contiguous NFA, for all pattern lists.", "5 C07",
          "Lean invariant proof of the stream state machine + schedule-enumerating differential under the capacity hook"),
  "C08": ("proof",
          "C08_chunks_concat: the chunks concatenate to the stream and each match chunk carries exactly the matched bytes; "
@@ -90,7 +98,9 @@ CHECKS = {
          "Finite facts over all 256 bytes by complete kernel evaluation (C11_fold_*, C11_opp_*: exactly A-Z/a-z fold, everything else "
          "fixed); tryFindFwd_comap: the case-insensitive searcher (automaton of folded patterns fed folded bytes) equals the search of "
          "the folded haystack, hence C11_find_{std,ll,lf} / C11_overlap_std: it returns the specification's answer with 'occurrence' "
-         "read after folding both sides; C11_ids: ids and lengths are those of the supplied patterns. " + CORR +
+         "read after folding both sides; C11_ids: ids and lengths are those of the supplied patterns. The transcribed builders with "
+         "ascii_case_insensitive are equivalent to that searcher for ALL pattern lists: L1cFold (noncontiguous compiler: both-case "
+         "edges, seen set), L1dFold / L1dIdsFold (DFA, abstract and id-level), L1eFold (contiguous NFA), L1cIdsFold. " + CORR +
          " Certificates are run with ascii_case_insensitive on all 256 bytes incl. '@[`{' and bytes >= 0x80.", "5 C11",
          "Lean proof (complete byte table + comap lemma + C01/C02/C03 theorems) + certified bisimulation with case folding + differential"),
  "C12": ("proof",
@@ -160,7 +170,10 @@ CHECKS = {
          "contractOk is checked on the exhaustive dump (all reachable states x 256 bytes x both anchoring arguments) of every build; "
          "C16_contract_reachable / C16_dead_absorbing lift the local check to every reachable state and word; C16_recipe_eq_find "
          "proves the documented caller-written loop equals the built-in search for every automaton record; the recipe is also run in "
-         "Rust on the real automata and compared with the model.", "5 C16",
+         "Rust on the real automata and compared with the model. For the transcribed builders the contract is a theorem for ALL "
+         "pattern lists: L1dIds_special_contract / L1cIds_special_contract (the id-range predicates of Special: is_special <-> dead or "
+         "match or (prefilter and start), dead absorbing, is_match <-> non-empty match list), L1d/L1e/L1dIds/L1cIds_startEquiv; "
+         "every real dump is additionally certified against these id-level models (certdfai, certnci, certcontig).", "5 C16",
          "Lean-proved contract checker on exhaustive automaton dumps + proof of recipe equivalence + differential"),
 }
 def main():
